@@ -122,10 +122,17 @@ def rec_case(seed):
         try:
             # read order: a second instance whose meshes are read BEFORE its maps (the main run read the maps first)
             bo = run(d)
+            for deprecated in ('background_mesh_masked', 'background_rms_mesh_masked', 'mesh_nmasked'):      # (still public: read first)
+                try:
+                    getattr(bo, deprecated)
+                except AttributeError:
+                    pass
             mo, ro = fxa(bo.background_mesh), fxa(bo.background_rms_mesh)
             bo.background, bo.background_rms
             pair('meshes_do_not_depend_on_whether_the_maps_were_read', np.concatenate([np.ravel(mo), np.ravel(ro), np.ravel(fxa(bo.background_mesh)), np.ravel(fxa(bo.background_rms_mesh))]) / S,
                  np.concatenate([np.ravel(rec['mesh']), np.ravel(rec['rmsmesh'])] * 2) / S, tol=0)
+            pair('maps_do_not_depend_on_what_was_read_before', np.concatenate([np.ravel(fxa(bo.background)), np.ravel(fxa(bo.background_rms))]) / S,
+                 np.concatenate([np.ravel(rec['bkg']), np.ravel(rec['rms'])]) / S, tol=0)
             d2 = d.copy()
             for r, c in mask + cov:
                 d2[r, c] = rng.choice([1e7, -1e7, np.nan])
